@@ -93,9 +93,9 @@ pub struct Limits {
 }
 
 /// A crash is covered by its recorded finding only from this fraction of the recorded depth on.
-const COVER_NUM: u64 = 85;
+const COVER_NUM: u64 = 60;
 /// Probe cases run at this fraction of the recorded depth and must complete.
-const PROBE_NUM: u64 = 80;
+const PROBE_NUM: u64 = 55;
 
 impl Limits {
     pub fn new() -> Limits {
@@ -135,7 +135,7 @@ impl Limits {
         Limits { floors, listed, baseline }
     }
 
-    /// A recorded finding covers a crash only at or beyond 85 % of the smallest crashing depth recorded
+    /// A recorded finding covers a crash only at or beyond 60 % of the smallest crashing depth recorded
     /// for the same build and stack budget; an earlier crash is a new violation.
     fn covered(&self, key: &str, build: &str, stack: u64, depth: u64) -> bool {
         match self.floors.get(key).and_then(|per| per.get(&(build.to_string(), stack >> 20))) {
@@ -1126,7 +1126,7 @@ impl Scenario for Limits {
                     Case::Depth { stack, .. } => *stack,
                     _ => 0,
                 };
-                // not recorded at all: the plain key (an unlisted violation). Recorded: covered only from 85 % of the
+                // not recorded at all: the plain key (an unlisted violation). Recorded: covered only from 60 % of the
                 // depth recorded for this build and stack on; a recorded finding without such a depth covers nothing.
                 let listed = self.listed.contains(&key);
                 let class = if !listed || self.covered(&key, build, stack, *depth) {
@@ -1264,7 +1264,7 @@ impl Scenario for Limits {
         vec![
             "stack budgets 8 MiB (main-thread default) and 2 MiB (Rust's spawned-thread default), plus 1 and 4 MiB in seeded cases; the largest input is about 4 MB".into(),
             "to_pretty_string is exercised only up to 20,000 levels because its output is quadratic in depth".into(),
-            "a known stack-exhaustion finding records the smallest crashing depth per build and per stack budget (1, 2, 4, 8 MiB); it covers a crash only at or beyond 85 % of the depth recorded for the case's build and stack; an earlier crash is a new violation, and probe cases at 80 % of every recorded depth must complete".into(),
+            "a known stack-exhaustion finding records the smallest crashing depth per build and per stack budget (1, 2, 4, 8 MiB); it covers a crash only at or beyond 60 % of the depth recorded for the case's build and stack; an earlier crash is a new violation, and probe cases at 55 % of every recorded depth must complete".into(),
             "extreme-index results are compared with the tree model for the record only; the property judges crash vs no crash".into(),
         ]
     }
